@@ -481,7 +481,7 @@ func (p *Proxy) buildLocalRow() {
 		"cluster_name":            p.encodeTypeFatal(datatype.Varchar, "cql-proxy"),
 		"cql_version":             p.encodeTypeFatal(datatype.Varchar, p.cluster.Info.CQLVersion),
 		"schema_version":          p.encodeTypeFatal(datatype.Uuid, schemaVersion), // TODO: Make this match the downstream cluster(s)
-		"native_protocol_version": p.encodeTypeFatal(datatype.Varchar, p.cluster.NegotiatedVersion.String()),
+		"native_protocol_version": p.encodeTypeFatal(datatype.Varchar, strconv.Itoa(int(p.cluster.NegotiatedVersion))),
 		"dse_version":             p.encodeTypeFatal(datatype.Varchar, p.cluster.Info.DSEVersion),
 	}
 }
